@@ -74,6 +74,27 @@ def build_runtime_case(rng):
             rng_ = (first + rel + 1, first + rel + 1)
         add(filler(rng, ind, n=rng.randint(0, 1)), 0)
         return rng_
+    if rng.random() < 0.2:
+        # the fault sits in a generator body right after a yield, its operands are already in registers:
+        # the first instruction executed after the resume is the failing one
+        gkind, glines = rng.choice([("gen_add", ["c_ = a_ + b_"]), ("gen_access", ["q_ = b_.foo"]), ("gen_index", ["q_ = a_[b_]"]), ("gen_compare", ["q_ = a_ < b_"]), ("gen_call", ["q_ = b_()"])])
+        add(["gz = |a_, b_|"], 0)
+        add(filler(rng, 1, n=rng.randint(0, 1)), 0)
+        for _ in range(rng.randint(1, 2)):
+            add(["yield a_"], 1)
+        first = add(glines, 1)
+        expected.append((first + 1, first + 1))
+        add(["yield 0"], 1)
+        add(filler(rng, 0), 0)
+        form = rng.choice([["for _v in gz(1, null)", "  null"], ["c_ = gz(1, null).to_list()"], ["c_ = gz(1, null).each(|x_| x_).to_tuple()"], ["it_ = gz(1, null)", "it_.next()", "it_.next()", "it_.next()"]])
+        at = add(form, 0)
+        if len(form) == 4:
+            # manual iteration: the failing resume is the second or third next()
+            expected.append((at + 3, at + 4))
+        else:
+            expected.append((at + 1, at + 1))
+        add(filler(rng, 0, n=rng.randint(0, 1)), 0)
+        return "\n".join(lines) + "\n", expected, gkind
     if depth == 0:
         expected.append(body_with(0, fault_lines, fault_rel))
     else:
@@ -221,6 +242,10 @@ def _shard(shard, n, tier, seed, budget_s):
                     exp.append((len(lines) + 1, "1 + %d" % k)); lines.append("debug 1 + %d" % k)
                 elif form < 0.75:
                     exp.append((len(lines) + 1, None)); lines += ["debug [", "  1,", "  %d," % k, "]"]
+                elif form < 0.85:
+                    # debug of a local right after a yield (first instruction after the resume)
+                    lines.append("g_dbg%d = |a_|" % k); lines += filler(rng, 1, n=rng.randint(0, 1)); lines.append("  yield a_")
+                    exp.append((len(lines) + 1, "a_")); lines.append("  debug a_"); lines.append("  yield a_"); lines.append("c_%d = g_dbg%d(%d).to_list()" % (k, k, k))
                 else:
                     lines.append("f_dbg%d = ||" % k); lines += filler(rng, 1, n=rng.randint(0, 2))
                     exp.append((len(lines) + 1, "(2, %d)" % k)); lines.append("  debug (2, %d)" % k); lines.append("  0"); lines.append("f_dbg%d()" % k)
